@@ -327,7 +327,21 @@ static int overdue_pending(void) {
   }
   return 0;
 }
+static int e_n;
+static _Atomic long e_done;
 static void settle(void) {
+  if (e_n) {
+    /* scenario e: nobody is declared lost while sleepers are still returning; give up after 3 s without progress */
+    long prev = -1; int idle_rounds = 0;
+    while (!atomic_load(&finished) && idle_rounds < 15) {
+      const long d = atomic_load(&e_done);
+      if (d == prev) ++idle_rounds; else idle_rounds = 0;
+      prev = d;
+      vt_advance(1);
+      real_sleep_us(200000);
+    }
+    return;
+  }
   for (int k = 0; k < 1500 && !atomic_load(&finished) && overdue_pending(); ++k) {
     if (!atomic_load(&in_hold)) vt_advance(1);
     real_sleep_us(1000);
@@ -501,7 +515,6 @@ static int scn_c(int argc, char** argv) {
  * wake loop.  Compact accounting (the tables above hold 600 fibers): per sleeper the tick of the call, the tick of the
  * return and the number of returns; reported as one summary line
  *   E <N> <returned> <pending> <returned-more-than-once> <min ticks slept> <max ticks slept> <first pending index>    */
-static int e_n;
 static long long e_us;
 static uint32_t *e_tc, *e_tw;
 static unsigned char* e_cnt;
@@ -523,6 +536,7 @@ static void* e_fiber(void* p) {
   usleep((useconds_t)e_us);
   e_tw[i] = (uint32_t)vt_now();
   if (e_cnt[i] < 250) e_cnt[i]++;
+  atomic_fetch_add(&e_done, 1);
   return NULL;
 }
 static int scn_e(int argc, char** argv) {
@@ -585,7 +599,7 @@ int main(int argc, char** argv) {
     if (!strcmp(s, "b")) return scn_b(argc - 3, argv + 3);
     if (!strcmp(s, "c")) return scn_c(argc - 3, argv + 3);
     if (!strcmp(s, "d")) return scn_d(argc - 3, argv + 3);
-    if (!strcmp(s, "e")) { alarm(120); return scn_e(argc - 3, argv + 3); }
+    if (!strcmp(s, "e")) { alarm(300); return scn_e(argc - 3, argv + 3); }
   }
   return 2;
 }
